@@ -9,7 +9,7 @@ from . import gen_hist, treejson as TJ
 def run_history(args):
     """One history: returns dict(ro_text, steps=[{ro_before(tree), msg_text, cls, obs | classify_err,
     completed_before, completed_after}], docs=[texts], ids=[ints])."""
-    seed, max_steps, with_delete = args
+    seed, max_steps, with_delete, views = args
     from . import impl, build as B
     rng = random.Random(seed)
     g = gen_hist.Gen(rng)
@@ -41,12 +41,15 @@ def run_history(args):
             step['completed_after'] = bool(ro.completed)
             step['msg_after'] = str(mo)
             step['msg_unchanged'] = (TJ.to_tree(mo.xml) == TJ.parse(msg_text))
+            if views:
+                from . import access_family
+                step['view'] = access_family.read_view(ro)
         steps.append(step)
     return {'seed': seed, 'ro_text': ro_text, 'steps': steps, 'docs': docs, 'ids': [1] + ids}
 
 
-def run_histories(seeds, max_steps=12, with_delete=True, jobs=None):
-    args = [(s, max_steps, with_delete) for s in seeds]
+def run_histories(seeds, max_steps=12, with_delete=True, jobs=None, views=False):
+    args = [(s, max_steps, with_delete, views) for s in seeds]
     jobs = jobs or min(16, os.cpu_count() or 1)
     if len(args) < 8 or jobs == 1:
         return [run_history(a) for a in args]
